@@ -47,10 +47,21 @@ Proof.
   - constructor; congruence.
 Qed.
 
+Lemma strs_eqb_spec (a b : list str) : reflect (a = b) (list_eqb str_eqb a b).
+Proof. apply list_eqb_spec. apply str_eqb_spec. Qed.
+
+Lemma rule_key_eqb_spec (a b : rule_key) : reflect (a = b) (rule_key_eqb a b).
+Proof.
+  destruct a as [d o], b as [d' o']. unfold rule_key_eqb. cbn [fst snd].
+  destruct (str_eqb_spec d d') as [->|Hne]; cbn [andb].
+  - destruct (strs_eqb_spec o o') as [->|Hne]; constructor; congruence.
+  - constructor; congruence.
+Qed.
+
 Lemma rkey_eqb_spec (a b : rkey) : reflect (a = b) (rkey_eqb a b).
 Proof.
   destruct a as [d k], b as [d' k']. unfold rkey_eqb. cbn [fst snd].
-  destruct (str_eqb_spec d d') as [->|Hne]; cbn [andb].
+  destruct (rule_key_eqb_spec d d') as [->|Hne]; cbn [andb].
   - destruct (skey_eqb_spec k k') as [->|Hne]; constructor; congruence.
   - constructor; congruence.
 Qed.
